@@ -17,6 +17,8 @@ CLAIMED = {
          TRUST + "class-template helpers are proved at one instantiation each (same body for every element type); primitive accessors are modelled as arbitrary functions of the receiver.", "DESIGN.md 6 (C15)"),
  "C11": ("proof", "get_qualified is proved on the lowered real code for symbolic qualifier sets and arbitrary operand nodes (plain or already qualified, built by the real constructor and read through real dynamic dispatch); the table's insert is used through its contract with the real comparator and element constructor; the comparator is proved a total order with zero set = key equality.",
          TRUST + "insert's contract is established by C08 for the template body modulo L-tree / L-order; qualified operands are assumed in normal form (table invariant, L-history); std::less<> and std::allocator assumed.", "DESIGN.md 6 (C11)"),
+ "C01": ("proof", "For every type constructor of the property a two-request obligation on the lowered real get_* body (operands from symbolic pools of arbitrary nodes, transfers by spelling, qualifier sets by value): same request <=> same node, result reports its operands, natural-transfer and default-specification collapsing across overloads; each table's insert is used through its contract, with the comparator clang resolved inside insert and the element constructor run for real (CTOR-KEY); each comparator is proved a three-way total order on three symbolic requests (CMP-ORDER).  Product/sum obligations bound the sequence length (<= 2) and are listed as bounded.",
+         TRUST + "insert's contract is established by C08 modulo L-tree / L-order; L-history lifts the two-request statement to every history; Warehouse overloads of get_product/get_sum are not yet covered; std::less, u8string_view::compare, std::allocator assumed.", "DESIGN.md 6 (C01)"),
 }
 m = {"version": 1,
  "setup_cmd": "python3 -c \"import sys; sys.path.insert(0,'lib'); import ipv; ipv.ensure_cxx2c()\"",
